@@ -167,6 +167,99 @@ pub fn extract_avc_config(data: &[u8]) -> Option<AvcConfig> {
 /// Create a default AVC configuration for testing/fallback.
 ///
 /// Returns a valid configuration for 1080p @ High Profile, Level 4.0.
+/// The four bytes that follow the picture parameter sets in an `avcC` record for the High
+/// profiles (ISO/IEC 14496-15: `profile_idc` 100, 110, 122 or 144): chroma_format,
+/// bit_depth_luma_minus8, bit_depth_chroma_minus8 (each behind reserved one-bits) and a zero
+/// count of SPS extensions. `None` for every other profile, whose record ends after the PPS.
+///
+/// The values are read from the front of the SPS; an SPS that cannot be read that far is
+/// described as 4:2:0, 8 bit.
+pub(crate) fn avcc_high_profile_fields(sps: &[u8]) -> Option<[u8; 4]> {
+    let profile_idc = *sps.get(1)?;
+    if !matches!(profile_idc, 100 | 110 | 122 | 144) {
+        return None;
+    }
+    let (chroma_format, luma_minus8, chroma_minus8) =
+        parse_sps_chroma_and_depths(sps).unwrap_or((1, 0, 0));
+    Some([
+        0xfc | chroma_format,
+        0xf8 | luma_minus8,
+        0xf8 | chroma_minus8,
+        0,
+    ])
+}
+
+/// chroma_format_idc, bit_depth_luma_minus8 and bit_depth_chroma_minus8 of a High-profile
+/// SPS NAL unit (H.264 7.3.2.1.1), or `None` if the unit ends early or holds impossible values.
+fn parse_sps_chroma_and_depths(sps: &[u8]) -> Option<(u8, u8, u8)> {
+    // Drop the NAL header and the emulation prevention bytes.
+    let mut rbsp = Vec::with_capacity(sps.len());
+    let mut zeros = 0;
+    for &byte in sps.get(1..)? {
+        if zeros >= 2 && byte == 3 {
+            zeros = 0;
+            continue;
+        }
+        zeros = if byte == 0 { zeros + 1 } else { 0 };
+        rbsp.push(byte);
+    }
+
+    // profile_idc, constraint flags and level_idc take the first three bytes.
+    let mut bits = SpsBits {
+        rbsp: &rbsp,
+        pos: 24,
+    };
+    let _seq_parameter_set_id = bits.read_ue()?;
+    let chroma_format_idc = bits.read_ue()?;
+    if chroma_format_idc > 3 {
+        return None;
+    }
+    if chroma_format_idc == 3 {
+        let _separate_colour_plane_flag = bits.read_bit()?;
+    }
+    let luma_minus8 = bits.read_ue()?;
+    let chroma_minus8 = bits.read_ue()?;
+    if luma_minus8 > 6 || chroma_minus8 > 6 {
+        return None;
+    }
+    Some((
+        chroma_format_idc as u8,
+        luma_minus8 as u8,
+        chroma_minus8 as u8,
+    ))
+}
+
+/// Bit cursor over an SPS payload without emulation prevention bytes.
+struct SpsBits<'a> {
+    rbsp: &'a [u8],
+    pos: usize,
+}
+
+impl SpsBits<'_> {
+    fn read_bit(&mut self) -> Option<u32> {
+        let byte = *self.rbsp.get(self.pos / 8)?;
+        let value = (byte >> (7 - self.pos % 8)) & 1;
+        self.pos += 1;
+        Some(value as u32)
+    }
+
+    /// Unsigned Exp-Golomb code, ue(v).
+    fn read_ue(&mut self) -> Option<u32> {
+        let mut leading_zeros = 0u32;
+        while self.read_bit()? == 0 {
+            leading_zeros += 1;
+            if leading_zeros > 31 {
+                return None;
+            }
+        }
+        let mut suffix = 0u32;
+        for _ in 0..leading_zeros {
+            suffix = (suffix << 1) | self.read_bit()?;
+        }
+        Some((1u32 << leading_zeros) - 1 + suffix)
+    }
+}
+
 pub fn default_avc_config() -> AvcConfig {
     AvcConfig {
         sps: DEFAULT_SPS.to_vec(),
